@@ -48,6 +48,8 @@ pub struct Gen<'a> {
     pub nodes: usize,
     /// names that nested assignments (assignments used as expressions) may target
     pub assign_names: Vec<String>,
+    /// observable names created so far: (kind, name, type of the value the handler returns)
+    pub pool: Vec<(&'static str, String, Ty)>,
     counter: usize,
     /// reach: which observable kinds were generated
     pub kinds_used: Vec<&'static str>,
@@ -97,7 +99,7 @@ impl<'a> Gen<'a> {
                 )
             })
             .collect();
-        Gen { r, case, knobs, slot, vars, regs: vec![], nodes: 0, assign_names: vec![], counter: 0, kinds_used: vec![] }
+        Gen { r, case, knobs, slot, vars, regs: vec![], nodes: 0, assign_names: vec![], pool: vec![], counter: 0, kinds_used: vec![] }
     }
 
     fn fresh(&mut self, prefix: &str) -> String {
@@ -132,11 +134,55 @@ impl<'a> Gen<'a> {
         self.kinds_used.push(k);
         self.nodes += 1;
         let slot = self.slot;
-        Some(match k {
+        // the SAME observable name at several positions (each visit must invoke it again)
+        let reusable: Vec<String> = self.pool.iter().filter(|(pk, _, pt)| *pk == k && *pt == ty).map(|(_, n, _)| n.clone()).collect();
+        if !reusable.is_empty() && self.r.chance(1, 3) {
+            let name = reusable[self.r.usize(reusable.len())].clone();
+            let d1 = depth.saturating_sub(1);
+            return Some(match k {
+                "ctx_call" | "global_fn" => {
+                    let n = if depth > 0 { self.r.usize(3) } else { 0 };
+                    let args = (0..n).map(|_| self.any(d1)).collect();
+                    Expr::Call(name, args)
+                }
+                "ctx_bare" => Expr::Ref(name),
+                "prefix_op" => {
+                    let x = self.any(d1);
+                    Expr::Un(name, Box::new(x))
+                }
+                "postfix_op" => {
+                    let x = self.any(d1);
+                    Expr::Post(Box::new(x), name)
+                }
+                _ => {
+                    let a = self.any(d1);
+                    let b = self.any(d1);
+                    Expr::Bin(name, Box::new(a), Box::new(b))
+                }
+            });
+        }
+        let made = self.pool.len();
+        let e = self.observable_new(k, ty, depth, slot);
+        if let Some(name) = match &e {
+            Expr::Call(n, _) | Expr::Ref(n) | Expr::Un(n, _) | Expr::Post(_, n) | Expr::Bin(n, _, _) => Some(n.clone()),
+            _ => None,
+        } {
+            self.pool.insert(made.min(self.pool.len()), (k, name, ty));
+        }
+        Some(e)
+    }
+
+    fn observable_new(&mut self, k: &'static str, ty: Ty, depth: u32, slot: usize) -> Expr {
+        match k {
             "ctx_call" => {
                 let name = self.fresh("p");
                 let h = self.handler(HKind::CtxFunc, ty);
                 self.case.slots[slot].funcs.push((name.clone(), h));
+                if self.knobs.global_fn && self.r.chance(1, 5) {
+                    // a GLOBAL function of the same name: shadowed by the context function, never reached
+                    let hg = self.case.add_handler(HandlerSpec::plain(HKind::Func, Ret::Marker));
+                    self.regs.push(Op::RegFn { name: name.clone(), h: hg });
+                }
                 let n = if depth > 0 { self.r.usize(3) } else { 0 };
                 let args = (0..n).map(|_| self.any(depth.saturating_sub(1))).collect();
                 Expr::Call(name, args)
@@ -179,7 +225,7 @@ impl<'a> Gen<'a> {
                 let b = self.any(depth - 1);
                 Expr::Bin(name, Box::new(a), Box::new(b))
             }
-        })
+        }
     }
 
     pub fn any(&mut self, depth: u32) -> Expr {
@@ -223,7 +269,7 @@ impl<'a> Gen<'a> {
             Ty::ListInt => Expr::List((0..self.r.usize(3)).map(|_| lit_i(self.r.range(0, 5))).collect()),
             Ty::ListBool => Expr::List((0..self.r.usize(3)).map(|_| lit_b(self.r.chance(1, 2))).collect()),
             Ty::Map => Expr::Map(vec![(lit_s("k"), lit_i(self.r.range(0, 9)))]),
-            Ty::None => rf("unbound_name"),
+            Ty::None => rf(*self.r.pick(&["unbound_name", "sum", "mul", "unbound_name"])),
         }
     }
 
@@ -266,7 +312,23 @@ impl<'a> Gen<'a> {
                 0 | 1 => bin(*self.r.pick(&["<", "<=", ">", ">=", "==", "!="]), self.expr(Ty::Num, d), self.expr(Ty::Num, d)),
                 2 => bin(*self.r.pick(&["&&", "||"]), self.expr(Ty::Bool, d), self.expr(Ty::Bool, d)),
                 3 => un(*self.r.pick(&["!", "not"]), self.expr(Ty::Bool, d)),
-                4 => bin("in", self.expr(Ty::Int, d), self.expr(Ty::ListInt, d)),
+                4 => {
+                    if self.r.chance(1, 2) {
+                        // the needle matches an element that is NOT the last one
+                        let k = self.r.range(0, 5);
+                        let mut xs = vec![];
+                        for _ in 0..self.r.usize(2) {
+                            xs.push(self.expr(Ty::Int, d));
+                        }
+                        xs.push(lit_i(k));
+                        for _ in 0..(1 + self.r.usize(2)) {
+                            xs.push(self.expr(Ty::Int, d));
+                        }
+                        bin("in", lit_i(k), Expr::List(xs))
+                    } else {
+                        bin("in", self.expr(Ty::Int, d), self.expr(Ty::ListInt, d))
+                    }
+                }
                 5 => bin(*self.r.pick(&["beginWith", "endWith"]), self.expr(Ty::Str, d), self.expr(Ty::Str, d)),
                 6 => un(*self.r.pick(&["AND", "OR"]), self.expr(Ty::ListBool, d)),
                 7 => tern(self.expr(Ty::Bool, d), self.expr(Ty::Bool, d), self.expr(Ty::Bool, d)),
@@ -312,6 +374,21 @@ impl<'a> Gen<'a> {
         let ty = *self.r.pick(&[Ty::Int, Ty::Int, Ty::Bool, Ty::Str, Ty::ListInt]);
         let e = self.expr(ty, depth);
         self.set_var(&name, ty);
+        if self.knobs.ops && self.r.chance(1, 5) {
+            // assignment through a user-registered SETTER operator (its handler returns the right operand)
+            let existing: Vec<String> = self.pool.iter().filter(|(k, _, _)| *k == "setter_op").map(|(_, n, _)| n.clone()).collect();
+            let op = if !existing.is_empty() && self.r.chance(1, 2) {
+                existing[self.r.usize(existing.len())].clone()
+            } else {
+                let op = self.fresh("set");
+                let h = self.case.add_handler(HandlerSpec::plain(HKind::Infix, Ret::Arg(1)));
+                self.regs.push(Op::RegIn { name: op.clone(), prec: 20, setter: true, right: true, h });
+                self.pool.push(("setter_op", op.clone(), Ty::None));
+                self.kinds_used.push("setter_op");
+                op
+            };
+            return bin(&op, rf(&name), e);
+        }
         bin("=", rf(&name), e)
     }
 
@@ -331,6 +408,18 @@ impl<'a> Gen<'a> {
             };
             self.set_var(&name, Ty::Num);
             return bin(op, rf(&name), rhs);
+        }
+        if self.knobs.ctx_bare && self.r.chance(1, 12) {
+            // compound assignment whose target is a context function: `f op= e` must bind f to f() op e
+            let name = self.fresh("b");
+            let v = self.r.range(0, 12);
+            let h = self.case.add_handler(HandlerSpec::plain(HKind::CtxFunc, Ret::Const(Val::int(v))));
+            let slot = self.slot;
+            self.case.slots[slot].funcs.push((name.clone(), h));
+            self.kinds_used.push("ctx_bare");
+            let rhs = lit_i(self.r.range(1, 9));
+            self.set_var(&name, Ty::Int);
+            return bin(*self.r.pick(&["+=", "-=", "*=", "|="]), rf(&name), rhs);
         }
         if !ints.is_empty() && self.r.chance(1, 10) {
             // the right side of a compound assignment rebinds its own target first
